@@ -15,56 +15,77 @@ def joinState (g : Nat) (s : St) : St :=
            subs := fun k => if k = s.nsubs then { status := 0, trace := [], done := false, delFin := some g, tearFin := some g } else s.subs k,
            gens := fun k => if k = g then { (s.gens g) with subj := { (s.gens g).subj with obs := (s.gens g).subj.obs ++ [s.nsubs] } } else s.gens k }
 
-theorem inv_joinState {s : St} {g : Nat} (hi : Inv s) (hsub : s.subject = some g) (ha : GenActive s g) :
-    Inv (joinState g s) ∧ GenActive (joinState g s) g := by
+theorem inv_joinState {P : Pend} {s : St} {g : Nat} (hi : Inv P s) (hsub : s.subject = some g) (ha : GenActive P s g) :
+    Inv P (joinState g s) ∧ GenActive P (joinState g s) g := by
   have hos : openSubs (joinState g s) = openSubs s ++ [s.nsubs] :=
     openSubs_new (s := s) (s' := joinState g s) rfl (by simp [joinState])
       (fun k hk => by have : k ≠ s.nsubs := by omega
                       simp [joinState, this])
-  have hact : GenActive (joinState g s) g := by
+  have hother : ∀ k, k ≠ s.nsubs → (joinState g s).subs k = s.subs k := by
+    intro k hk; simp [joinState, hk]
+  have hgother : ∀ k, k ≠ g → (joinState g s).gens k = s.gens k := by
+    intro k hk; simp [joinState, hk]
+  have hact : GenActive P (joinState g s) g := by
     constructor
-    any_goals (simp [joinState]; first | exact ha.pStatus | exact ha.pDone | exact ha.pFin | exact ha.upSub | exact ha.upTorn | exact ha.ssFins | exact ha.ssDone | exact ha.isOpen | exact ha.flagE | exact ha.flagC)
-    · rw [hos]; simp [joinState, ha.obs]
-    · intro k hk hks
+    case obs => rw [hos]; simp [joinState, ha.obs]
+    case fin => intro hne; simp [joinState]; exact ha.fin hne
+    case unf =>
+      intro he
+      obtain ⟨h1, h2, A, hA, hltA, hu⟩ := ha.unf he
+      have hAn : A ≠ s.nsubs := by omega
+      exact ⟨by simp [joinState]; exact h1, by simp [joinState]; exact h2, A, hA, by simp [joinState]; omega,
+        by rw [hother A hAn]; exact hu⟩
+    case subs =>
+      intro k hk hks hne
       by_cases hki : k = s.nsubs
       · subst hki; constructor <;> simp [joinState]
-      · have : (joinState g s).subs k = s.subs k := by simp [joinState, hki]
-        rw [this] at hks ⊢
-        exact ha.subs k (by simp [joinState] at hk; omega) hks
+      · rw [hother k hki] at hks ⊢
+        exact ha.subs k (by simp [joinState] at hk; omega) hks hne
+    all_goals (simp [joinState]; first | exact ha.pStatus | exact ha.pDone | exact ha.upSub | exact ha.upTorn | exact ha.ssDone | exact ha.isOpen | exact ha.flagE | exact ha.flagC)
   refine ⟨?_, hact⟩
   constructor
-  · exact hi.shared
-  · intro k hk hks
+  case shared => exact hi.shared
+  case closed =>
+    intro k hk hks
     by_cases hki : k = s.nsubs
     · subst hki; simp [joinState] at hks
-    · have : (joinState g s).subs k = s.subs k := by simp [joinState, hki]
-      rw [this] at hks ⊢
+    · rw [hother k hki] at hks ⊢
       exact hi.closed k (by simp [joinState] at hk; omega) hks
-  · intro k hk hne
+  case stale =>
+    intro k hk hne hu
     have hkg : k ≠ g := fun h => hne (by rw [h]; exact hsub)
-    have : (joinState g s).gens k = s.gens k := by simp [joinState, hkg]
-    rw [this]
-    exact hi.stale k hk hne
-  · rw [hos]
+    rw [hgother k hkg]
+    exact hi.stale k hk hne hu
+  case ended =>
+    intro k hk hne hu
+    have hkg : k ≠ g := fun h => hne (by rw [h]; exact hsub)
+    rw [hgother k hkg]
+    exact hi.ended k hk hne hu
+  case count =>
+    rw [hos]
     have := hi.count
     simp [joinState]
     omega
-  · intro hn
+  case idle =>
+    intro hn
     simp [joinState, hsub] at hn
-  · intro g' hg'
+  case cur =>
+    intro g' hg'
     have : g' = g := by
       have : (joinState g s).subject = s.subject := rfl
       rw [this, hsub] at hg'
       exact (Option.some.inj hg').symm
     subst this
     exact ⟨(hi.cur g' hsub).1, Or.inl hact⟩
+  case ugb => exact hi.ugb
+  case uab => exact hi.uab
 
-theorem needsNew_iff {s : St} (hi : Inv s) : needsNew s = true ↔ s.subject = none := by
+theorem needsNew_iff {P : Pend} {s : St} (hi : Inv P s) : needsNew s = true ↔ s.subject = none := by
   unfold needsNew
   rw [hi.shared]
   cases s.subject <;> simp
 
-theorem subscribe_join_active (cfg : Cfg) {s : St} {g : Nat} (hi : Inv s) (hsub : s.subject = some g) (ha : GenActive s g) :
+theorem subscribe_join_active (cfg : Cfg) {P : Pend} {s : St} {g : Nat} (hi : Inv P s) (hsub : s.subject = some g) (ha : GenActive P s g) :
     Sim (joinState g s) (subscribe cfg s) := by
   have hnn : needsNew s = false := by
     cases h : needsNew s with
@@ -98,35 +119,43 @@ def lateState (c : Nat) (s : St) : St :=
   { s with nsubs := s.nsubs + 1,
            subs := fun k => if k = s.nsubs then { status := c, trace := [], done := true, delFin := none, tearFin := none } else s.subs k }
 
-theorem inv_lateState {s : St} {g : Nat} {c : Nat} (hc : c ≠ 0) (hi : Inv s) (hsub : s.subject = some g) (hl : GenLatched s g) :
-    Inv (lateState c s) ∧ GenLatched (lateState c s) g := by
+theorem inv_lateState {P : Pend} {s : St} {g : Nat} {c : Nat} (hc : c ≠ 0) (hi : Inv P s) (hsub : s.subject = some g) (hl : GenLatched P s g) :
+    Inv P (lateState c s) ∧ GenLatched P (lateState c s) g := by
   have hos : openSubs (lateState c s) = openSubs s :=
     openSubs_new_closed (s := s) (s' := lateState c s) rfl (by simp [lateState, hc])
       (fun k hk => by have : k ≠ s.nsubs := by omega
                       simp [lateState, this])
-  have hlat : GenLatched (lateState c s) g :=
-    ⟨hl.pStatus, hl.pDone, hl.pFin, hl.upSub, hl.upTorn, hl.ssFins, hl.ssDone, hl.closed, hl.obs, hl.flag, by rw [hos]; exact hl.noOpen⟩
+  have hlat : GenLatched P (lateState c s) g :=
+    { pStatus := hl.pStatus, pDone := hl.pDone, pFin := hl.pFin, upSub := hl.upSub, ssDone := hl.ssDone,
+      closed := hl.closed, obs := hl.obs, flag := hl.flag, noOpen := by rw [hos]; exact hl.noOpen,
+      fin := hl.fin, unf := hl.unf }
   refine ⟨?_, hlat⟩
   constructor
-  · exact hi.shared
-  · intro k hk hks
+  case shared => exact hi.shared
+  case closed =>
+    intro k hk hks
     by_cases hki : k = s.nsubs
     · subst hki; constructor <;> simp [lateState, hc]
     · have : (lateState c s).subs k = s.subs k := by simp [lateState, hki]
       rw [this] at hks ⊢
       exact hi.closed k (by simp [lateState] at hk; omega) hks
-  · exact hi.stale
-  · rw [hos]; exact hi.count
-  · intro hn
+  case stale => exact hi.stale
+  case ended => exact hi.ended
+  case count => rw [hos]; exact hi.count
+  case idle =>
+    intro hn
     have : (lateState c s).subject = s.subject := rfl
     rw [this, hsub] at hn; cases hn
-  · intro g' hg'
+  case cur =>
+    intro g' hg'
     have : g' = g := by
       have : (lateState c s).subject = s.subject := rfl
       rw [this, hsub] at hg'
       exact (Option.some.inj hg').symm
     subst this
     exact ⟨(hi.cur g' hsub).1, Or.inr hlat⟩
+  case ugb => exact hi.ugb
+  case uab => exact hi.uab
 
 theorem zeroReset_flag {fl : Flags} {g : Nat} {s : St} (h : s.flagE = true ∨ s.flagC = true) : zeroReset fl g s = s := by
   unfold zeroReset
@@ -150,7 +179,7 @@ theorem late_effect (fl : Flags) (i g : Nat) (t : Ev) (ht : t.isTerminal = true)
   simp [teardownT, casClose, hc, decRef]
   rw [zeroReset_flag (by exact hflag)]
 
-theorem subscribe_join_latched (cfg : Cfg) {s : St} {g : Nat} (hi : Inv s) (hsub : s.subject = some g) (hl : GenLatched s g) :
+theorem subscribe_join_latched (cfg : Cfg) {P : Pend} {s : St} {g : Nat} (hi : Inv P s) (hsub : s.subject = some g) (hl : GenLatched P s g) :
     ∃ c, c ≠ 0 ∧ Sim (lateState c s) (subscribe cfg s) := by
   have hnn : needsNew s = false := by
     cases h : needsNew s with
@@ -198,14 +227,28 @@ macro "sim_rw" h:ident : tactic => `(tactic| simp only [($h).refCount, ($h).subj
   ($h).flagC, ($h).ngens, ($h).nsubs, ($h).status, ($h).done, ($h).delFin, ($h).tearFin, ($h).gStatus, ($h).gObs,
   ($h).ssDone, ($h).ssFins, ($h).pStatus, ($h).pDone, ($h).pFin, ($h).upSub, ($h).upTorn])
 
+/-- the older generations while generation `g` is being created: all reset, except possibly the
+    pending one of an enclosing `Subscribe` (`P`), which has ended but is not torn down yet -/
+structure FOuter (P : Pend) (g : Nat) (u : St) : Prop where
+  stale : ∀ k, k < g → P.ug ≠ some k → GenStale (u.gens k)
+  ended : ∀ k, k < g → P.ug = some k → GenEnded (u.gens k)
+  pua : P.ua = none
+  pug : ∀ k, P.ug = some k → k < g
+
+theorem FOuter.sim {P : Pend} {g : Nat} {u u' : St} (h : Sim u u') (c : FOuter P g u) : FOuter P g u' :=
+  ⟨fun k hk hu => (c.stale k hk hu).sim h, fun k hk hu => (c.ended k hk hu).sim h, c.pua, c.pug⟩
+
+theorem FOuter.frame {P : Pend} {g : Nat} {u u' : St} (c : FOuter P g u) (h : ∀ k, k < g → u'.gens k = u.gens k) : FOuter P g u' :=
+  ⟨fun k hk hu => by rw [h k hk]; exact c.stale k hk hu, fun k hk hu => by rw [h k hk]; exact c.ended k hk hu, c.pua, c.pug⟩
+
 /-- common to the three phases of R3 for generation `g` created by subscriber `i` -/
-structure FCommon (g i : Nat) (u : St) : Prop where
+structure FCommon (P : Pend) (g i : Nat) (u : St) : Prop where
   shared : u.sourceSubscription = u.subject
   ngens : u.ngens = g + 1
   nsubs : u.nsubs = i + 1
-  stale : ∀ k, k < g → GenStale (u.gens k)
+  stale : FOuter P g u
   closed : ∀ k, k < i → SubClosed (u.subs k)
-  count : u.refCount = 1
+  count : u.refCount = (1 + P.c : Nat)
   upSub : (u.gens g).upSub = true
   upTorn : (u.gens g).upTorn = false
   pFin : (u.gens g).pFin = false
@@ -213,7 +256,7 @@ structure FCommon (g i : Nat) (u : St) : Prop where
   tearFin : (u.subs i).tearFin = none
 
 /-- the prefix has not terminated: proxy open, the creator registered on the fresh subject -/
-structure FLive (g i : Nat) (u : St) : Prop extends FCommon g i u where
+structure FLive (P : Pend) (g i : Nat) (u : St) : Prop extends FCommon P g i u where
   subject : u.subject = some g
   flagE : u.flagE = false
   flagC : u.flagC = false
@@ -227,7 +270,7 @@ structure FLive (g i : Nat) (u : St) : Prop extends FCommon g i u where
   delFin : (u.subs i).delFin = some g
 
 /-- the prefix terminated and the configuration reset on it: the shared pair is already nil -/
-structure FReset (g i : Nat) (u : St) : Prop extends FCommon g i u where
+structure FReset (P : Pend) (g i : Nat) (u : St) : Prop extends FCommon P g i u where
   subject : u.subject = none
   flagE : u.flagE = false
   flagC : u.flagC = false
@@ -238,7 +281,7 @@ structure FReset (g i : Nat) (u : St) : Prop extends FCommon g i u where
   sub : SubClosed (u.subs i)
 
 /-- the prefix terminated and the configuration does not reset on it -/
-structure FLatch (g i : Nat) (u : St) : Prop extends FCommon g i u where
+structure FLatch (P : Pend) (g i : Nat) (u : St) : Prop extends FCommon P g i u where
   subject : u.subject = some g
   flag : u.flagE = true ∨ u.flagC = true
   pStatus : (u.gens g).pStatus ≠ 0
@@ -248,36 +291,31 @@ structure FLatch (g i : Nat) (u : St) : Prop extends FCommon g i u where
   obs : (u.gens g).subj.obs = []
   sub : SubClosed (u.subs i)
 
-theorem FCommon.sim {g i : Nat} {u u' : St} (h : Sim u u') (c : FCommon g i u) : FCommon g i u' := by
+theorem FCommon.sim {P : Pend} {g i : Nat} {u u' : St} (h : Sim u u') (c : FCommon P g i u) : FCommon P g i u' := by
   obtain ⟨c1, c2, c3, c4, c5, c6, c7, c8, c9, c10, c11⟩ := c
   constructor
-  case stale => exact fun k hk => (c4 k hk).sim h
+  case stale => exact c4.sim h
   case closed => exact fun k hk => (c5 k hk).sim h
   all_goals sim_rw h
   all_goals assumption
 
-theorem FLive.sim {g i : Nat} {u u' : St} (h : Sim u u') (c : FLive g i u) : FLive g i u' := by
+theorem FLive.sim {P : Pend} {g i : Nat} {u u' : St} (h : Sim u u') (c : FLive P g i u) : FLive P g i u' := by
   obtain ⟨c0, c1, c2, c3, c4, c5, c6, c7, c8, c9, c10, c11⟩ := c
   refine ⟨c0.sim h, ?_, ?_, ?_, ?_, ?_, ?_, ?_, ?_, ?_, ?_, ?_⟩
   all_goals sim_rw h
   all_goals assumption
 
-theorem FReset.sim {g i : Nat} {u u' : St} (h : Sim u u') (c : FReset g i u) : FReset g i u' := by
+theorem FReset.sim {P : Pend} {g i : Nat} {u u' : St} (h : Sim u u') (c : FReset P g i u) : FReset P g i u' := by
   obtain ⟨c0, c1, c2, c3, c4, c5, c6, c7, c8⟩ := c
   refine ⟨c0.sim h, ?_, ?_, ?_, ?_, ?_, ?_, ?_, c8.sim h⟩
   all_goals sim_rw h
   all_goals assumption
 
-theorem FLatch.sim {g i : Nat} {u u' : St} (h : Sim u u') (c : FLatch g i u) : FLatch g i u' := by
+theorem FLatch.sim {P : Pend} {g i : Nat} {u u' : St} (h : Sim u u') (c : FLatch P g i u) : FLatch P g i u' := by
   obtain ⟨c0, c1, c2, c3, c4, c5, c6, c7, c8⟩ := c
   refine ⟨c0.sim h, ?_, ?_, ?_, ?_, ?_, ?_, ?_, c8.sim h⟩
   all_goals sim_rw h
   all_goals assumption
-
-/-- a closed proxy only feeds the drop hook -/
-theorem pEmit_closed_sim (cfg : Cfg) (g : Nat) (x : Ev) {u : St} (h1 : (u.gens g).pStatus ≠ 0) (h2 : (u.gens g).pDone = true) :
-    Sim u (pEmit cfg g x u) := by
-  cases x <;> simp [pEmit, pNext, pTerm, h1, pSubnUnsub, h2] <;> exact sim_drop _ u
 
 /-- state after the synchronous prefix terminated inside R3 (before the decision's effect on the
     shared pair / flags) -/
@@ -293,7 +331,7 @@ theorem reset_fresh {s : St} {g : Nat} (h1 : (s.gens g).ssFins = []) (h5 : (s.ge
   funext k
   split <;> simp_all
 
-theorem flive_pTerm (cfg : Cfg) {g i : Nat} {u : St} (t : Ev) (ht : t.isTerminal = true) (h : FLive g i u) :
+theorem flive_pTerm (cfg : Cfg) {P : Pend} {g i : Nat} {u : St} (t : Ev) (ht : t.isTerminal = true) (h : FLive P g i u) :
     (cfg.flags.resetsOn t = true ∧ pTerm cfg g t u = { (syncTermState t i g u) with subject := none, sourceSubscription := none, gens := fun k => if k = g then { ((syncTermState t i g u).gens g) with ssDone := true } else (syncTermState t i g u).gens k }) ∨
     (cfg.flags.resetsOn t = false ∧ pTerm cfg g t u = { (syncTermState t i g u) with flagE := true }) ∨
     (cfg.flags.resetsOn t = false ∧ pTerm cfg g t u = { (syncTermState t i g u) with flagC := true }) := by
@@ -325,15 +363,15 @@ theorem flive_pTerm (cfg : Cfg) {g i : Nat} {u : St} (t : Ev) (ht : t.isTerminal
     simp [subjTerm, h.isOpen, bcastTerm, h.obs, dTerm, dDeliver, h.status, dSubnUnsub, h.done, h.delFin, h.tearFin, runDel, runTear,
       subjClear, pSubnUnsub, h.pDone, hpf, syncTermState]
     refine ⟨?_, ?_⟩ <;> funext k <;> split <;> simp_all
-theorem flive_pTerm_phase (cfg : Cfg) {g i : Nat} {u : St} (t : Ev) (ht : t.isTerminal = true) (h : FLive g i u) :
-    (cfg.flags.resetsOn t = true ∧ FReset g i (pTerm cfg g t u)) ∨ (cfg.flags.resetsOn t = false ∧ FLatch g i (pTerm cfg g t u)) := by
+theorem flive_pTerm_phase (cfg : Cfg) {P : Pend} {g i : Nat} {u : St} (t : Ev) (ht : t.isTerminal = true) (h : FLive P g i u) :
+    (cfg.flags.resetsOn t = true ∧ FReset P g i (pTerm cfg g t u)) ∨ (cfg.flags.resetsOn t = false ∧ FLatch P g i (pTerm cfg g t u)) := by
   have hc : t.code ≠ 0 := by cases t <;> simp [Ev.code, Ev.isTerminal] at *
   have hterm : Status.ofTerminal t ≠ Status.open := by cases t <;> simp [Status.ofTerminal, Ev.isTerminal] at *
-  have hstale : ∀ k, k < g → GenStale ((syncTermState t i g u).gens k) := by
+  have hstale : FOuter P g (syncTermState t i g u) := by
+    apply h.stale.frame
     intro k hk
     have : k ≠ g := by omega
     simp [syncTermState, this]
-    exact h.stale k hk
   have hclosed : ∀ k, k < i → SubClosed ((syncTermState t i g u).subs k) := by
     intro k hk
     have : k ≠ i := by omega
@@ -346,35 +384,35 @@ theorem flive_pTerm_phase (cfg : Cfg) {g i : Nat} {u : St} (t : Ev) (ht : t.isTe
   · left
     rw [e]
     refine ⟨hf, ⟨rfl, h.ngens, h.nsubs, ?_, hclosed, h.count, ?_, ?_, ?_, ?_, ?_⟩, rfl, h.flagE, h.flagC, ?_, ?_, ?_, ?_, hsub⟩
-    · intro k hk
+    · apply hstale.frame
+      intro k hk
       have : k ≠ g := by omega
       simp [this]
-      exact hstale k hk
     all_goals simp [syncTermState, h.upSub, h.upTorn, h.pFin, h.ssFins, hc]
   · right
     rw [e]
-    refine ⟨hf, ⟨h.shared, h.ngens, h.nsubs, hstale, hclosed, h.count, ?_, ?_, ?_, ?_, ?_⟩, h.subject, Or.inl rfl, ?_, ?_, ?_, ?_, ?_, hsub⟩
+    refine ⟨hf, ⟨h.shared, h.ngens, h.nsubs, hstale.frame (fun _ _ => rfl), hclosed, h.count, ?_, ?_, ?_, ?_, ?_⟩, h.subject, Or.inl rfl, ?_, ?_, ?_, ?_, ?_, hsub⟩
     all_goals simp [syncTermState, h.upSub, h.upTorn, h.pFin, h.ssFins, hc, h.ssDone, hterm]
   · right
     rw [e]
-    refine ⟨hf, ⟨h.shared, h.ngens, h.nsubs, hstale, hclosed, h.count, ?_, ?_, ?_, ?_, ?_⟩, h.subject, Or.inr rfl, ?_, ?_, ?_, ?_, ?_, hsub⟩
+    refine ⟨hf, ⟨h.shared, h.ngens, h.nsubs, hstale.frame (fun _ _ => rfl), hclosed, h.count, ?_, ?_, ?_, ?_, ?_⟩, h.subject, Or.inr rfl, ?_, ?_, ?_, ?_, ?_, hsub⟩
     all_goals simp [syncTermState, h.upSub, h.upTorn, h.pFin, h.ssFins, hc, h.ssDone, hterm]
 
-theorem playPre_reset (cfg : Cfg) {g i : Nat} (pre : List Ev) {u : St} (h : FReset g i u) : FReset g i (playPre cfg g pre u) := by
+theorem playPre_reset (cfg : Cfg) {P : Pend} {g i : Nat} (pre : List Ev) {u : St} (h : FReset P g i u) : FReset P g i (playPre cfg g pre u) := by
   unfold playPre
   induction pre generalizing u with
   | nil => exact h
   | cons x xs ih => exact ih (h.sim (pEmit_closed_sim cfg g x h.pStatus h.pDone))
 
-theorem playPre_latch (cfg : Cfg) {g i : Nat} (pre : List Ev) {u : St} (h : FLatch g i u) : FLatch g i (playPre cfg g pre u) := by
+theorem playPre_latch (cfg : Cfg) {P : Pend} {g i : Nat} (pre : List Ev) {u : St} (h : FLatch P g i u) : FLatch P g i (playPre cfg g pre u) := by
   unfold playPre
   induction pre generalizing u with
   | nil => exact h
   | cons x xs ih => exact ih (h.sim (pEmit_closed_sim cfg g x h.pStatus h.pDone))
 
 /-- after the prefix: still live, or already reset, or latched -/
-theorem playPre_live (cfg : Cfg) {g i : Nat} (pre : List Ev) {u : St} (h : FLive g i u) :
-    FLive g i (playPre cfg g pre u) ∨ FReset g i (playPre cfg g pre u) ∨ FLatch g i (playPre cfg g pre u) := by
+theorem playPre_live (cfg : Cfg) {P : Pend} {g i : Nat} (pre : List Ev) {u : St} (h : FLive P g i u) :
+    FLive P g i (playPre cfg g pre u) ∨ FReset P g i (playPre cfg g pre u) ∨ FLatch P g i (playPre cfg g pre u) := by
   induction pre generalizing u with
   | nil => exact Or.inl h
   | cons x xs ih =>
@@ -420,14 +458,19 @@ def latchDone (g : Nat) (u : St) : St :=
   { u with refCount := u.refCount - 1,
            gens := fun k => if k = g then { (u.gens g) with upTorn := true, ssFins := [g] } else u.gens k }
 
-theorem finish_live (fl : Flags) {g i : Nat} {u : St} (h : FLive g i u) :
-    r3tail fl i g (upAddTeardown g u) = liveDone i g u ∧ Inv (r3tail fl i g (upAddTeardown g u)) ∧ GenActive (r3tail fl i g (upAddTeardown g u)) g ∧
+/-- the new generation `g` is not the pending one of an enclosing `Subscribe` -/
+theorem FOuter.notPending {P : Pend} {g : Nat} {u : St} (c : FOuter P g u) : P.ug ≠ some g :=
+  fun h => Nat.lt_irrefl g (c.pug g h)
+
+theorem finish_live (fl : Flags) {P : Pend} {g i : Nat} {u : St} (h : FLive P g i u) :
+    r3tail fl i g (upAddTeardown g u) = liveDone i g u ∧ Inv P (r3tail fl i g (upAddTeardown g u)) ∧ GenActive P (r3tail fl i g (upAddTeardown g u)) g ∧
       (r3tail fl i g (upAddTeardown g u)).subject = some g := by
   have hss : u.sourceSubscription = some g := by rw [h.shared]; exact h.subject
   have h1 := h.ssDone
   have h2 := h.ssFins
   have h3 := h.pDone
   have h4 := h.done
+  have hnp := h.stale.notPending
   have e : r3tail fl i g (upAddTeardown g u) = liveDone i g u := by
     simp [r3tail, ssAdd, upAddTeardown, h.pDone, h.ssDone, addTeardown, h.done, h.ssFins, liveDone]
     refine ⟨?_, ?_⟩ <;> funext k <;> split <;> simp_all
@@ -444,11 +487,13 @@ theorem finish_live (fl : Flags) {g i : Nat} {u : St} (h : FLive g i u) :
   have hng : F.ngens = g + 1 := by rw [← hF]; exact h.ngens
   have hos : openSubs F = [i] := openSubs_single hns hcl (by rw [hst]; exact h.status)
   have hsubj : F.subject = some g := by rw [← hF]; exact h.subject
-  have hact : GenActive F g := by
+  have hact : GenActive P F g := by
     constructor
     case obs => rw [hos, ← hF]; simp [h.obs]
+    case fin => intro _; rw [← hF]; simp
+    case unf => intro he; exact absurd he hnp
     case subs =>
-      intro k hk hks
+      intro k hk hks _
       have : k = i := by
         by_cases hki : k = i
         · exact hki
@@ -459,34 +504,46 @@ theorem finish_live (fl : Flags) {g i : Nat} {u : St} (h : FLive g i u) :
     all_goals (rw [← hF]; simp [h.pStatus, h.pDone, h.upSub, h.upTorn, h.ssDone, h.isOpen, h.flagE, h.flagC])
   refine ⟨?_, hact, hsubj⟩
   constructor
-  · rw [← hF]; exact h.shared
-  · intro k hk hks
+  case shared => rw [← hF]; exact h.shared
+  case closed =>
+    intro k hk hks
     have hki : k ≠ i := fun hh => hks (by rw [hh, hst]; exact h.status)
     rw [hsubs k hki]
     exact h.closed k (by omega)
-  · intro k hk hne
+  case stale =>
+    intro k hk hne hu
     have hkg : k ≠ g := fun hh => hne (by rw [hh]; exact hsubj)
     rw [hgens k hkg]
-    exact h.stale k (by omega)
-  · rw [hos]
+    exact h.stale.stale k (by omega) hu
+  case ended =>
+    intro k hk hne hu
+    have hkg : k ≠ g := fun hh => hne (by rw [hh]; exact hsubj)
+    rw [hgens k hkg]
+    exact ⟨h.stale.ended k (by omega) hu, h.stale.pua⟩
+  case count =>
+    rw [hos]
     have := h.count
     have h1 : F.refCount = u.refCount := by rw [← hF]
     rw [h1, this]; simp
-  · intro hn; rw [hsubj] at hn; cases hn
-  · intro g' hg'
+  case idle => intro hn; rw [hsubj] at hn; cases hn
+  case cur =>
+    intro g' hg'
     rw [hsubj] at hg'
     have : g' = g := (Option.some.inj hg').symm
     subst this
     exact ⟨by omega, Or.inl hact⟩
+  case ugb => intro k hk; have := h.stale.pug k hk; omega
+  case uab => intro A hA; rw [h.stale.pua] at hA; cases hA
 
-theorem finish_latch (fl : Flags) {g i : Nat} {u : St} (h : FLatch g i u) :
-    r3tail fl i g (upAddTeardown g u) = latchDone g u ∧ Inv (r3tail fl i g (upAddTeardown g u)) ∧ GenLatched (r3tail fl i g (upAddTeardown g u)) g ∧
+theorem finish_latch (fl : Flags) {P : Pend} {g i : Nat} {u : St} (h : FLatch P g i u) :
+    r3tail fl i g (upAddTeardown g u) = latchDone g u ∧ Inv P (r3tail fl i g (upAddTeardown g u)) ∧ GenLatched P (r3tail fl i g (upAddTeardown g u)) g ∧
       (r3tail fl i g (upAddTeardown g u)).subject = some g := by
   have hss : u.sourceSubscription = some g := by rw [h.shared]; exact h.subject
   have hc := h.sub.status
   have h1 := h.ssDone
   have h2 := h.ssFins
   have h3 := h.pDone
+  have hnp := h.stale.notPending
   have e : r3tail fl i g (upAddTeardown g u) = latchDone g u := by
     simp [r3tail, ssAdd, upAddTeardown, h.pDone, h.ssDone, addTeardown, h.sub.done, h.ssFins, teardownT, casClose, hc, decRef, latchDone]
     rw [zeroReset_flag (by exact h.flag)]
@@ -503,44 +560,58 @@ theorem finish_latch (fl : Flags) {g i : Nat} {u : St} (h : FLatch g i u) :
   have hng : F.ngens = g + 1 := by rw [← hF]; exact h.ngens
   have hsubj : F.subject = some g := by rw [← hF]; exact h.subject
   have hos : openSubs F = [] := openSubs_none hns (fun k hk => by rw [hsubs]; exact (h.closed k hk).status) (by rw [hsubs]; exact h.sub.status)
-  have hlat : GenLatched F g := by
+  have hlat : GenLatched P F g := by
     constructor
     case noOpen => exact hos
     case flag => rw [← hF]; exact h.flag
+    case fin => intro _; rw [← hF]; simp
+    case unf => intro he; exact absurd he hnp
     all_goals (rw [← hF]; simp [h.pStatus, h.pDone, h.pFin, h.upSub, h.ssDone, h.closedSubj, h.obs])
   refine ⟨?_, hlat, hsubj⟩
   constructor
-  · rw [← hF]; exact h.shared
-  · intro k hk hks
+  case shared => rw [← hF]; exact h.shared
+  case closed =>
+    intro k hk hks
     rw [hsubs]
     by_cases hki : k = i
     · subst hki; exact h.sub
     · exact h.closed k (by omega)
-  · intro k hk hne
+  case stale =>
+    intro k hk hne hu
     have hkg : k ≠ g := fun hh => hne (by rw [hh]; exact hsubj)
-    rw [hgens k hkg]; exact h.stale k (by omega)
-  · rw [hos]
+    rw [hgens k hkg]; exact h.stale.stale k (by omega) hu
+  case ended =>
+    intro k hk hne hu
+    have hkg : k ≠ g := fun hh => hne (by rw [hh]; exact hsubj)
+    rw [hgens k hkg]; exact ⟨h.stale.ended k (by omega) hu, h.stale.pua⟩
+  case count =>
+    rw [hos]
     have := h.count
     have h1 : F.refCount = u.refCount - 1 := by rw [← hF]
-    rw [h1, this]; simp
-  · intro hn; rw [hsubj] at hn; cases hn
-  · intro g' hg'
+    rw [h1, this]; simp; omega
+  case idle => intro hn; rw [hsubj] at hn; cases hn
+  case cur =>
+    intro g' hg'
     rw [hsubj] at hg'
     have : g' = g := (Option.some.inj hg').symm
     subst this
     exact ⟨by omega, Or.inr hlat⟩
+  case ugb => intro k hk; have := h.stale.pug k hk; omega
+  case uab => intro A hA; rw [h.stale.pua] at hA; cases hA
+
 /-- the prefix ended on a terminal the configuration resets on: the local `currentSourceSubscription`
     is already done, so the proxy's `Unsubscribe` is run at once (a no-op: the proxy has ended) and
     Share's teardown is registered as usual — it runs at once and gives the reference back -/
 def resetDone (g : Nat) (u : St) : St :=
   { (u.modGen g fun x => { x with upTorn := true }) with refCount := u.refCount - 1 }
 
-theorem finish_reset (fl : Flags) {g i : Nat} {u : St} (h : FReset g i u) :
-    r3tail fl i g (upAddTeardown g u) = resetDone g u ∧ Inv (r3tail fl i g (upAddTeardown g u)) ∧
+theorem finish_reset (fl : Flags) {P : Pend} {g i : Nat} {u : St} (h : FReset P g i u) :
+    r3tail fl i g (upAddTeardown g u) = resetDone g u ∧ Inv P (r3tail fl i g (upAddTeardown g u)) ∧
       (r3tail fl i g (upAddTeardown g u)).subject = none := by
   have hss : u.sourceSubscription = none := by rw [h.shared]; exact h.subject
   have hc := h.sub.status
   have hps := h.pStatus
+  have hnp := h.stale.notPending
   have e : r3tail fl i g (upAddTeardown g u) = resetDone g u := by
     have e1 : upAddTeardown g u = u.modGen g fun x => { x with upTorn := true } := by simp [upAddTeardown, h.pDone]
     rw [e1]
@@ -565,25 +636,35 @@ theorem finish_reset (fl : Flags) {g i : Nat} {u : St} (h : FReset g i u) :
   have hos : openSubs F = [] := openSubs_none hns (fun k hk => by rw [hsubs]; exact (h.closed k hk).status) (by rw [hsubs]; exact h.sub.status)
   refine ⟨?_, hsubj⟩
   constructor
-  · rw [← hF]; exact h.shared
-  · intro k hk hks
+  case shared => rw [← hF]; exact h.shared
+  case closed =>
+    intro k hk hks
     rw [hsubs]
     by_cases hki : k = i
     · subst hki; exact h.sub
     · exact h.closed k (by omega)
-  · intro k hk _
+  case stale =>
+    intro k hk _ hu
     by_cases hkg : k = g
     · subst hkg
       rw [← hF]
       constructor <;> simp [St.modGen, h.pStatus, h.pDone, h.pFin, h.upSub, h.ssFins, h.ssDone, h.obs]
-    · rw [hgens k hkg]; exact h.stale k (by omega)
-  · rw [hos]
+    · rw [hgens k hkg]; exact h.stale.stale k (by omega) hu
+  case ended =>
+    intro k hk _ hu
+    have hkg : k ≠ g := fun hh => hnp (by rw [← hh]; exact hu)
+    rw [hgens k hkg]; exact ⟨h.stale.ended k (by omega) hu, h.stale.pua⟩
+  case count =>
+    rw [hos]
     have := h.count
     have h1 : F.refCount = u.refCount - 1 := by rw [← hF]
-    rw [h1, this]; simp
-  · intro _
+    rw [h1, this]; simp; omega
+  case idle =>
+    intro _
     exact ⟨by rw [← hF]; exact h.flagE, by rw [← hF]; exact h.flagC, hos⟩
-  · intro g' hg'; rw [hsubj] at hg'; cases hg'
+  case cur => intro g' hg'; rw [hsubj] at hg'; cases hg'
+  case ugb => intro k hk; have := h.stale.pug k hk; omega
+  case uab => intro A hA; rw [h.stale.pua] at hA; cases hA
 
 /-! ### the creator of a generation enters R3 -/
 
@@ -597,24 +678,34 @@ def freshState (conn : Conn) (s : St) : St :=
 theorem subjNew_open (conn : Conn) : (Subj.new conn).status = Status.open := by cases conn <;> rfl
 theorem subjNew_obs (conn : Conn) : (Subj.new conn).obs = [] := by cases conn <;> rfl
 
-theorem flive_freshState (conn : Conn) {s : St} (hi : Inv s) (hsub : s.subject = none) :
-    FLive s.ngens s.nsubs (freshState conn s) := by
+theorem flive_freshState (conn : Conn) {P : Pend} {s : St} (hi : Inv P s) (hsub : s.subject = none) :
+    FLive P s.ngens s.nsubs (freshState conn s) := by
   obtain ⟨_, _, hno⟩ := hi.idle hsub
   have hcount := hi.count
   rw [hno] at hcount
-  refine ⟨⟨rfl, rfl, rfl, ?_, ?_, ?_, ?_, ?_, ?_, ?_, ?_⟩, rfl, rfl, rfl, ?_, ?_, ?_, ?_, ?_, ?_, ?_, ?_⟩
-  · intro k hk
-    have hne : k ≠ s.ngens := by omega
-    simp [freshState, hne]
-    exact hi.stale k hk (by rw [hsub]; simp)
+  have hua : P.ua = none := by
+    cases h : P.ua with
+    | none => rfl
+    | some A => exact absurd hsub (hi.uab A h).2
+  have hout : FOuter P s.ngens (freshState conn s) := by
+    refine ⟨?_, ?_, hua, hi.ugb⟩
+    · intro k hk hu
+      have hne : k ≠ s.ngens := by omega
+      simp [freshState, hne]
+      exact hi.stale k hk (by rw [hsub]; simp) hu
+    · intro k hk hu
+      have hne : k ≠ s.ngens := by omega
+      simp [freshState, hne]
+      exact (hi.ended k hk (by rw [hsub]; simp) hu).1
+  refine ⟨⟨rfl, rfl, rfl, hout, ?_, ?_, ?_, ?_, ?_, ?_, ?_⟩, rfl, rfl, rfl, ?_, ?_, ?_, ?_, ?_, ?_, ?_, ?_⟩
   · intro k hk
     have hne : k ≠ s.nsubs := by omega
     simp [freshState, hne]
     exact hi.closed k hk (openSubs_eq_nil.mp hno k hk)
-  · simp [freshState, hcount]
+  · simp [freshState, hcount]; omega
   all_goals simp [freshState, subjNew_open]
 
-theorem subscribe_fresh_eq (cfg : Cfg) {s : St} (hi : Inv s) (hsub : s.subject = none) :
+theorem subscribe_fresh_eq (cfg : Cfg) {P : Pend} {s : St} (hi : Inv P s) (hsub : s.subject = none) :
     ∃ u0 k, Sim (freshState cfg.conn s) u0 ∧
       subscribe cfg s = r3tail cfg.flags s.nsubs s.ngens (upAddTeardown s.ngens (playPre cfg s.ngens (cfg.pre k) u0)) := by
   have hnn : needsNew s = true := (needsNew_iff hi).mpr hsub
@@ -645,9 +736,9 @@ theorem subscribe_fresh_eq (cfg : Cfg) {s : St} (hi : Inv s) (hsub : s.subject =
   all_goals (try split)
   all_goals simp_all [hL.status, hL.done, hL.delFin, hL.tearFin, hL.gStatus, hL.gObs, hL.ssDone, hL.ssFins, hL.pStatus, hL.pDone, hL.pFin, hL.upSub, hL.upTorn, newSub, subjNew_open, subjNew_obs]
 /-- how a `sub` event ends, with the invariant: joined the live generation, was served a latched
-    terminal, or created a generation whose prefix left it live / reset (nil dereference) / latched -/
-theorem subscribe_cases (cfg : Cfg) {s : St} (hi : Inv s) :
-    Inv (subscribe cfg s) := by
+    terminal, or created a generation whose prefix left it live / reset / latched -/
+theorem subscribe_cases (cfg : Cfg) {P : Pend} {s : St} (hi : Inv P s) :
+    Inv P (subscribe cfg s) := by
   cases hsub : s.subject with
   | none =>
     obtain ⟨u0, k, hsim, he⟩ := subscribe_fresh_eq cfg hi hsub
@@ -663,22 +754,29 @@ theorem subscribe_cases (cfg : Cfg) {s : St} (hi : Inv s) :
     · obtain ⟨c, hc, hsim⟩ := subscribe_join_latched cfg hi hsub hl
       exact (inv_lateState hc hi hsub hl).1.sim hsim
 
-theorem inv_step (cfg : Cfg) {s : St} (hi : Inv s) (e : Event) : Inv (step cfg s e) := by
+/-- a plain event keeps the invariant; a source terminal may close the pending creator -/
+theorem inv_step' (cfg : Cfg) {P : Pend} {s : St} (hi : Inv P s) (e : Event) (hself : ∀ A, P.ua = some A → e ≠ .unsub A) :
+    Inv P (step cfg s e) ∨ (Inv P.drop (step cfg s e) ∧ openSubs (step cfg s e) = []) := by
   cases e with
-  | sub => exact subscribe_cases cfg hi
+  | sub => exact Or.inl (subscribe_cases cfg hi)
   | unsub i =>
     simp only [step]
     split
-    next hlt => exact inv_dUnsubscribe cfg.flags hi i hlt
-    next => exact hi
+    next hlt => exact Or.inl (inv_dUnsubscribe cfg.flags hi i hlt (fun h => hself i h rfl))
+    next => exact Or.inl hi
   | src x => exact inv_push cfg x hi
 
-theorem inv_foldl (cfg : Cfg) (evs : List Event) {s : St} (hi : Inv s) : Inv (evs.foldl (step cfg) s) := by
+theorem inv_step (cfg : Cfg) {s : St} (hi : Inv Pend.idle s) (e : Event) : Inv Pend.idle (step cfg s e) := by
+  rcases inv_step' cfg hi e (fun A hA => by simp at hA) with h | ⟨h, _⟩
+  · exact h
+  · simpa using h
+
+theorem inv_foldl (cfg : Cfg) (evs : List Event) {s : St} (hi : Inv Pend.idle s) : Inv Pend.idle (evs.foldl (step cfg) s) := by
   induction evs generalizing s with
   | nil => exact hi
   | cons e es ih => exact ih (inv_step cfg hi e)
 
 /-- every reachable state satisfies the invariant -/
-theorem inv_run (cfg : Cfg) (evs : List Event) : Inv (run cfg evs) := inv_foldl cfg evs Inv.init
+theorem inv_run (cfg : Cfg) (evs : List Event) : Inv Pend.idle (run cfg evs) := inv_foldl cfg evs Inv.init
 
 end Ro.Share
